@@ -274,18 +274,16 @@ def pairing_blocking(ctx, fi):
                        f"divided by that block's weight {den_is_bw}")
     # the same thing for all blocks at once:  X[:nBlocks*i].reshape(nBlocks, i).sum(axis=1)
     vec = None
+    strided: List[str] = []
     if bw_name is None:
         def vec_blocks(t):
-            t = strip_wrappers(t)
-            mm_ = m_method(t, "astype")
-            if mm_ is not None:
-                t = strip_wrappers(mm_[0])
             if not (t.op == "call" and t.args[0].op == "attr" and t.args[0].args[1] == "sum"):
                 return None
             _, ps_, kw_ = call_parts(t)
             ax = kw_.get("axis", ps_[0] if ps_ else None)
-            if ax is None or not is_const(strip_wrappers(ax), 1):
+            if ax is None or strip_wrappers(ax).op != "const" or strip_wrappers(ax).args[0] not in (0, 1, -1):
                 return None
+            axis_ = strip_wrappers(ax).args[0] % 2
             r = strip_wrappers(t.args[0].args[0])
             rs_ = m_method(r, "reshape")
             if rs_ is None:
@@ -297,14 +295,24 @@ def pairing_blocking(ctx, fi):
             if len(dims) != 2 or not (b_.op == "getitem" and b_.args[1].op == "slice" and
                                       is_const(b_.args[1].args[0], None)):
                 return None
+            if axis_ == 0:
+                # reshape(i, nBlocks).sum(axis=0): the summed axis is the slow one -- block j collects the strided
+                # samples j, j + nBlocks, ... instead of i consecutive ones (recorded, reported by the geometry rule)
+                strided.append(show(t, maxdepth=3)[:70])
+                return strip_wrappers(b_.args[0]), b_.args[1].args[1], dims[1], dims[0]
             return strip_wrappers(b_.args[0]), b_.args[1].args[1], dims[0], dims[1]
 
         cands = []
+        seen_c = set()
         for e in ev.events:
             if e.kind == "assign" and e.loops and hasattr(e.data[1], "op"):
-                vb = vec_blocks(e.data[1])
-                if vb is not None:
-                    cands.append((e, vb))
+                for x in subterms(e.data[1]):
+                    if x.uid in seen_c or x.op != "call":
+                        continue
+                    vb = vec_blocks(x)
+                    if vb is not None:
+                        seen_c.add(x.uid)
+                        cands.append((x, vb))
         wv = [c_ for c_ in cands if c_[1][0] is strip_wrappers(w_cut)]
         ev_ = []
         for c_ in cands:
@@ -316,14 +324,19 @@ def pairing_blocking(ctx, fi):
         if len(wv) == 1 and len(ev_) == 1:
             (we_, (_, n_w, d0w, d1w)), (ee_, (_, n_e, d0e, d1e)) = wv[0], ev_[0]
             same_split = n_w is n_e and d0w is d0e and d1w is d1e
+
+            def unwrap(t):
+                t = strip_wrappers(t)
+                mm_ = m_method(t, "astype")
+                return strip_wrappers(mm_[0]) if mm_ is not None else t
             # block means: the blocked weighted samples divided by the blocked weights
             div_ok = False
             for e in ev.events:
                 if e.kind == "assign" and e.loops and hasattr(e.data[1], "op"):
-                    d = m_binop(strip_wrappers(e.data[1]), "/")
-                    if d is not None and strip_wrappers(d[0]) is strip_wrappers(ee_.data[1]) and \
-                            strip_wrappers(d[1]) is strip_wrappers(we_.data[1]):
-                        div_ok = True
+                    for x in subterms(e.data[1]):
+                        d = m_binop(x, "/") if x.op == "binop" else None
+                        if d is not None and unwrap(d[0]) is ee_ and unwrap(d[1]) is we_:
+                            div_ok = True
             ok_blocks = same_split and div_ok
             why = f"vectorised: same [:n].reshape(nBlocks, i) split for weights and weighted samples {same_split}; " \
                   f"block means = blocked weighted samples / blocked weights {div_ok}"
@@ -397,10 +410,10 @@ def pairing_blocking(ctx, fi):
         iv = strip_wrappers(d1)
         pn = m_binop(strip_wrappers(n_w), "*")
         ok_geo = q is not None and strip_wrappers(q[1]) is iv and pn is not None and \
-            {strip_wrappers(pn[0]).uid, strip_wrappers(pn[1]).uid} == {strip_wrappers(d0).uid, iv.uid}
+            {strip_wrappers(pn[0]).uid, strip_wrappers(pn[1]).uid} == {strip_wrappers(d0).uid, iv.uid} and not strided
     if bw_name is not None or vec is not None:
         ctx.ob("PAIR-4", "blocking_analysis: blocks are consecutive slices [j*i, (j+1)*i) and nBlocks = nSamples // i",
-               ok_geo, "", fi)
+               ok_geo, (f"blocks are strided, not consecutive: {strided[:2]}" if strided else ""), fi)
     # error = sqrt( sum(bw * (be - mean)^2) / (v1 - v2/v1) / (nBlocks - 1) )
     err = None
     for e in ev.events:
